@@ -314,7 +314,7 @@ esl_workqueue_Remove(ESL_WORK_QUEUE *queue, void **obj)
   *obj = NULL;
   if (queue->readerQueueCnt > 0)
     {
-      inx = (queue->readerQueueHead + queue->readerQueueCnt) % queue->queueSize;
+      inx = (queue->readerQueueHead + queue->readerQueueCnt - 1) % queue->queueSize;
       *obj = queue->readerQueue[inx];
       queue->readerQueue[inx] = NULL;
       --queue->readerQueueCnt;
@@ -358,7 +358,7 @@ esl_workqueue__queuelock_Remove(ESL_WORK_QUEUE_QUEUELOCK *queue, void **obj)
   *obj = NULL;
   if (queue->readerQueueCnt > 0)
     {
-      inx = (queue->readerQueueHead + queue->readerQueueCnt) % queue->queueSize;
+      inx = (queue->readerQueueHead + queue->readerQueueCnt - 1) % queue->queueSize;
       *obj = queue->readerQueue[inx];
       queue->readerQueue[inx] = NULL;
       --queue->readerQueueCnt;
